@@ -139,6 +139,89 @@ def check_forms(res, B, elems, xs, case, sub, ops_wanted, tol=1e-11, forms=None)
                              detail=dict(op=op, args=[np.asarray(a) for a in args], got=got, want=want, err=err), sub=sub, case=case)
 
 
+def check_composed(res, B, elems, xs, case, sub, tol=1e-9, firsts=None, seconds=None):
+    """N8: symbolic composition.  Users feed the symbolic result of one library call into the next and compile the whole expression once;
+    the other explorers pass numbers between calls.  For every ordered pair (first, second) of compatible operations one casadi Function is
+    built from second(first(symbolic element)) and compared, on every alphabet member, with the stepwise evaluation second(first(p))
+    through the single-operation Functions (judged against the references elsewhere).  Differential oracle."""
+    G, A = B.G, B.G.algebra
+    # operation -> (argument kind, result kind, python callable on element objects)
+    prod_with = {}
+    table = {
+        "exp": ("a", "g", lambda x: x.exp(G)),
+        "log": ("g", "a", lambda X: X.log()),
+        "inverse": ("g", "g", lambda X: X.inverse()),
+        "square": ("g", "g", lambda X: X * X),
+        "neg": ("a", "a", lambda x: -x),
+        "to_Matrix": ("g", "M", lambda X: X.to_Matrix()),
+        "Ad": ("g", "M", lambda X: X.Ad()),
+        "ad": ("a", "M", lambda x: x.ad()),
+        "wedge": ("a", "M", lambda x: x.to_Matrix()),
+        "left_jacobian": ("a", "M", lambda x: x.left_jacobian()),
+        "g_right_jacobian": ("g", "M", lambda X: X.right_jacobian()),
+        "param_g": ("g", "M", lambda X: X.param),
+        "param_a": ("a", "M", lambda x: x.param),
+    }
+    stepwise = {"exp": "exp", "log": "log", "inverse": "inverse", "to_Matrix": "to_Matrix", "Ad": "Ad", "ad": "ad", "wedge": "wedge", "left_jacobian": "left_jacobian",
+                "g_right_jacobian": "g_right_jacobian"}
+
+    def step_num(op, p):
+        if op == "square":
+            return B.call("product", p, p)
+        if op == "neg":
+            return -np.asarray(p, dtype=float)
+        if op in ("param_g", "param_a"):
+            return np.asarray(p, dtype=float)
+        return B.call(stepwise[op], p)
+    def offered(op):
+        nm = {"square": "product", "neg": None, "param_g": None, "param_a": None}.get(op, stepwise.get(op))
+        if nm is None:
+            return True
+        B.get(nm)
+        return B.status.get(nm) == "ok"
+    firsts = [o for o in (firsts or ["exp", "log", "inverse", "square", "neg"]) if offered(o)]
+    seconds = [o for o in (seconds or ["exp", "log", "inverse", "to_Matrix", "Ad", "ad", "wedge", "left_jacobian", "g_right_jacobian", "param_g", "param_a"]) if offered(o)]
+    for f1 in firsts:
+        k1, r1, fn1 = table[f1]
+        for f2 in seconds:
+            k2, r2, fn2 = table[f2]
+            if k2 != r1 or (f1, f2) in (("neg", "param_a"),):
+                continue
+            sym = ca.SX.sym("p", B.n if k1 == "g" else B.na)
+            try:
+                with contextlib.redirect_stdout(io.StringIO()):
+                    e0 = G.elem(sym) if k1 == "g" else A.elem(sym)
+                    out = fn2(fn1(e0))
+                    if out is None:
+                        continue
+                    if hasattr(out, "param"):
+                        out = out.param
+                    F = ca.Function("composed", [sym], [ca.densify(ca.SX(out))])
+            except NotImplementedError:
+                continue
+            except Exception as ex:
+                res.count("evaluations")
+                res.fail(site="%s.%s" % (B.name, f2), clause="numeric_api:call_raises", cls="composed_after_" + f1, detail=dict(error="%s: %s" % (type(ex).__name__, str(ex)[:200])), sub=sub, case=case)
+                continue
+            pool = elems if k1 == "g" else xs
+            for p in pool:
+                res.count("evaluations")
+                res.count("composed_calls")
+                try:
+                    mid = step_num(f1, p).reshape(-1)
+                    if not np.all(np.isfinite(mid)):
+                        continue
+                    want = step_num(f2, mid)
+                except RuntimeError:
+                    continue  # operation not offered numerically either
+                got = np.array(F(ca.DM(np.asarray(p, dtype=float))), dtype=float)
+                ok, err = _same(got.reshape(want.shape) if got.size == want.size else got, want, tol)
+                if not ok:
+                    res.fail(site="%s.%s" % (B.name, f2), clause="numeric_api:symbolic_composition_equals_stepwise_evaluation", cls="composed_after_" + f1,
+                             detail=dict(first=f1, second=f2, x=np.asarray(p), composed=got, stepwise=want, err=err), sub=sub, case=case)
+                    break
+
+
 def check_history(res, B, elems, xs, case, sub, targets, preludes, tol=1e-11):
     """N6: the result of an operation on an element object does not depend on which other operations were called on that object before
     (lazily cached or silently rewritten per-object state).  For every element, every target op and every prelude op (same argument
